@@ -111,6 +111,12 @@ def make_tree(root, r, huge=False):
             os.setxattr(p, "user.c18", r.randbytes(r.choice([1, 30, 300])))
         except OSError:
             break
+    for p in files[6:9] + dirs[1:2]:
+        try:
+            os.setxattr(p, "user.empty", b"")          # an attribute with an empty value is an attribute
+            os.setxattr(p, "user.one", b"1")
+        except OSError:
+            break
     for p in files + dirs[1:]:
         try:
             os.chown(p, r.choice([0, 1000, 65534, 70000]), r.choice([0, 100, 70001]), follow_symlinks=False)
